@@ -169,6 +169,37 @@ theorem get_offset_spec (f : Fam) (ok : f.Ok) (x : Obj) (vx : Valid f x) :
       else .ok ((x.ip : Int) - (x.net : Int)) :=
   getOffset_spec f ok x vx
 
+/-- every way of obtaining an object establishes or preserves the class invariant (the
+`network_offset` setter only for a non-negative offset) -/
+theorem invariant_preserved (f : Fam) (ok : f.Ok) :
+    (∀ ip len, ip < 2 ^ f.w → len ≤ f.w → Valid f (ofIpLen f ip len)) ∧
+    (∀ n y, ofInt f n = .ok y → Valid f y) ∧
+    (∀ x n y, Valid f x → add f x n = .ok y → Valid f y) ∧
+    (∀ x n y, Valid f x → sub f x n = .ok y → Valid f y) ∧
+    (∀ x l y, Valid f x → setLen f x l = .ok y → Valid f y) ∧
+    (∀ x (k : Nat) y, Valid f x → setOffset f x k = .ok y → Valid f y) := by
+  have hm := ok.maxInt_eq
+  have hp : 0 < 2 ^ f.w := Nat.two_pow_pos _
+  refine ⟨valid_ofIpLen f, ?_, ?_, ?_, ?_, ?_⟩
+  · intro n y h
+    unfold ofInt at h
+    split at h
+    · rename_i hr; cases h
+      exact valid_ofIpLen f _ _ (by omega) (Nat.le_refl _)
+    · cases h
+  · intro x n y vx h; exact (add_sub_cancel' f ok x y n vx h).2.2
+  · intro x n y vx h; rw [sub_eq_add_neg] at h; exact (add_sub_cancel' f ok x y (-n) vx h).2.2
+  · intro x l y vx h
+    have sp := setLen_spec f x l
+    by_cases hr : 0 ≤ l ∧ l ≤ (f.w : Int)
+    · rw [sp.1 hr] at h; cases h; exact valid_ofIpLen f _ _ vx.ip_lt (by omega)
+    · rw [sp.2 hr] at h; cases h
+  · intro x k y vx h
+    have sp := setOffset_nonneg f x vx k
+    by_cases hk : k < 2 ^ hb f x
+    · rw [sp.1 hk] at h; cases h; exact valid_same_block f x vx k hk
+    · rw [sp.2 hk] at h; cases h
+
 /-- the family constants of the generated tables satisfy what the proofs assume -/
 theorem families_ok : v4.Ok ∧ v6.Ok ∧ v4.w = 32 ∧ v6.w = 128 := ⟨v4_ok, v6_ok, by decide, by decide⟩
 
